@@ -49,11 +49,13 @@ Definition keep_bottom (keep : nat) (l : list sval) : list sval := skipn (length
 Definition ITER_N : N := 900001.
 Definition ITER_ARG : N := 900002.
 Definition ITER_OUT : N := 900003.
+Definition GLOBAL_GET : N := 900010.
 Definition mk_tag (mk : modk) : Z :=
   match mk with
   | MReduce => 1 | MScan => 2 | MFold => 3 | MRows => 4 | MEach => 5 | MInventory => 6
   | MTable => 7 | MTuples => 8 | MGroup => 9 | MPartition => 10 | MSpawn => 11 | MPool => 12
-  | MRepeat => 13
+  | MRepeat => 13 | MStencil => 14 | MReduceContent => 15 | MRepeatWithInverse => 17
+  | MReduceDepth d => 1000 + Z.of_nat d
   | _ => 0 end%Z.
 (** values popped / pushed by the modifier as a whole (run_prim.rs / algorithm/{zip,reduce,loops,table,groups}.rs) *)
 Definition iter_ao (mk : modk) (sg : sig) : option (nat * nat) :=
@@ -65,7 +67,9 @@ Definition iter_ao (mk : modk) (sg : sig) : option (nat * nat) :=
   | MGroup | MPartition => Some (Nat.max (sa sg) 1 + 1, so sg)
   | MSpawn | MPool => Some (sa sg, 1)
   (* repeat: the count, then the operand's arguments; excess outputs are collected into arrays *)
-  | MRepeat => Some (1 + sa sg, if sa sg <? so sg then so sg - sa sg else so sg)
+  | MRepeat | MRepeatWithInverse => Some (1 + sa sg, if sa sg <? so sg then so sg - sa sg else so sg)
+  | MStencil => Some (if sa sg <=? 1 then 2 else 1, so sg)
+  | MReduceContent | MReduceDepth _ => Some (sa sg - so sg, so sg)
   | _ => None end.
 
 (** Uiua::without_fill around one run *)
@@ -122,6 +126,15 @@ Section Exec.
     | Some _ => Unk
     | None => Err false cur
     end.
+
+  (** as [iter_exec], but a negative count is outside the model (repeat with an inverse runs the
+      inverse operand for negative counts) *)
+  Definition iter_exec_nn (body : rt -> res) (tag : Z) (na no fa fo : nat) (s : rt) : res :=
+    if need na s then
+      match psem ITER_N (fillctx s) ([SInt tag; SInt (Z.of_nat fa); SInt (Z.of_nat fo)] ++ firstn na (stk s)) with
+      | Some [SInt n] => if (n <? 0)%Z then Unk else iter_exec body tag na no fa fo s
+      | _ => iter_exec body tag na no fa fo s end
+    else iter_exec body tag na no fa fo s.
 
   Fixpoint exec (fuel : nat) (n : node) (s : rt) {struct fuel} : res :=
     match fuel with O => OOF | S fuel =>
@@ -217,7 +230,18 @@ Section Exec.
         if negb (need k s) then Err false (set_stk s []) else
         Ok (set_stk s (fmtsem (firstn k (stk s)) :: skipn k (stk s)))
     | SetOutputComment => Ok s
-    | CallGlobal _ _ | CallMacro _ _ | BindGlobal | MatchFormat _ | Dynamic _ => Unk
+    | CallGlobal i sg =>
+        (* a constant binding: pushes its value (or fails); function bindings are exported as [Call] *)
+        if Nat.eqb (sa sg) 0 && Nat.eqb (so sg) 1 && Nat.eqb (sua sg) 0 && Nat.eqb (suo sg) 0 then
+          if negb (pknown GLOBAL_GET [SInt (Z.of_nat i)]) then Unk else
+          match psem GLOBAL_GET (fillctx s) [SInt (Z.of_nat i)] with
+          | Some [v] => Ok (set_stk s (v :: stk s))
+          | Some _ => Unk
+          | None => Err false s end
+        else Unk
+    | BindGlobal =>
+        match stk s with [] => Err false s | _ :: rest => Ok (set_stk s rest) end
+    | CallMacro _ _ | MatchFormat _ | Dynamic _ => Unk
     | Mod mk args =>
         match mk, args with
         | MDip, [(_, f)] =>
@@ -311,7 +335,7 @@ Section Exec.
             let vals := firstn k (stk s) in
             bind (ex f (set_stk s (skipn k (stk s)))) (fun s2 => Ok (set_stk s2 (vals ++ stk s2)))
         | (MReduce | MScan | MFold | MRows | MEach | MInventory | MTable | MTuples
-           | MGroup | MPartition), [(sg, f)] =>
+           | MGroup | MPartition | MStencil | MReduceContent | MReduceDepth _), [(sg, f)] =>
             match iter_ao mk sg with
             | Some (na, no) => iter_exec (ex f) (mk_tag mk) na no (sa sg) (so sg) s
             | None => Unk end
@@ -319,6 +343,11 @@ Section Exec.
             (* loops.rs repeat / repeat_impl: the operand runs under without_fill *)
             match iter_ao mk sg with
             | Some (na, no) => iter_exec (without_fill_body (ex f)) (mk_tag mk) na no (sa sg) (so sg) s
+            | None => Unk end
+        | MRepeatWithInverse, [(sg, f); (si, _)] =>
+            if negb (sig_eqb (sig_inverse sg) si) then Unk else
+            match iter_ao mk sg with
+            | Some (na, no) => iter_exec_nn (without_fill_body (ex f)) (mk_tag mk) na no (sa sg) (so sg) s
             | None => Unk end
         | (MSpawn | MPool), [(sg, _)] =>
             (* the operand runs on another thread's stacks: here only the arguments go and a handle comes *)
